@@ -324,12 +324,21 @@ func runSlots(c *Ctx) {
 				}
 				// the ownership test that guards status writes
 				mentionsActive := false
+				condExprs := []ast.Expr{is.Cond}
 				ast.Inspect(is.Cond, func(x ast.Node) bool {
-					if ix, ok := x.(*ast.IndexExpr); ok && isField(info, ix.X, active) {
-						mentionsActive = true
+					if id, ok := x.(*ast.Ident); ok {
+						condExprs = append(condExprs, resolveExprsAll(rt, id)...) // a local bool that holds the test
 					}
 					return true
 				})
+				for _, ce := range condExprs {
+					ast.Inspect(ce, func(x ast.Node) bool {
+						if ix, ok := x.(*ast.IndexExpr); ok && isField(info, ix.X, active) {
+							mentionsActive = true
+						}
+						return true
+					})
+				}
 				writes := false
 				ast.Inspect(is.Body, func(x ast.Node) bool {
 					if as, ok := x.(*ast.AssignStmt); ok && len(as.Lhs) == 1 && isField(info, as.Lhs[0], statusF) {
@@ -355,7 +364,18 @@ func runSlots(c *Ctx) {
 					return ok && len(as.Lhs) == 1 && isField(info, as.Lhs[0], statusF)
 				}
 				stop := func(b *cfg.Block) bool { return b.Stmt == ast.Stmt(is) && b.Kind == cfg.KindIfDone }
-				c.Check(regionAllPathsHit(g, then, good, stop, false), fmt.Sprintf("release/runTransfer/settled#%d", nset), is.Pos(), "the owner of the slot writes a final status on every path, whatever the transfer returned",
+				// a receiver that is not in the books any more has no status to settle
+				noState := func(cond ast.Expr, val bool) bool {
+					for _, a := range Implied(cond, val) {
+						if o, nilOnTrue, ok := NilTest(info, a.E); ok && nilOnTrue == a.Val {
+							if t := o.Type(); t != nil && strings.Contains(t.String(), "ReceiverState") {
+								return true
+							}
+						}
+					}
+					return false
+				}
+				c.Check(regionAllPathsHitEdge(g, then, good, noState, stop, false), fmt.Sprintf("release/runTransfer/settled#%d", nset), is.Pos(), "the owner of the slot writes a final status on every path, whatever the transfer returned",
 					"runTransfer releases its slot on a path that leaves the receiver's status as it was (TRANSFERRING): the slot is free and the next receiver starts, but the books show a transfer that nobody runs - "+
 						"an error class that is skipped (a wrapped context.Canceled is what a transfer that failed by itself returns, its own contexts are cancelled by the goroutine that failed first) is a transfer that ended without being recorded as failed")
 				return false
